@@ -70,6 +70,59 @@ public class CrrlOverrides implements ITLCOverrides {
         return t;
     }
 
+    private static Value[] elems(final Value v) {
+        final TupleValue t = (TupleValue) v.toTuple();
+        if (t == null) {
+            throw new RuntimeException("BigNat override: not a sequence: " + v);
+        }
+        return t.elems;
+    }
+
+    @TLAPlusOperator(identifier = "XorV", module = "BigNat", warn = false)
+    public static Value xorv(final Value a, final Value b) {
+        final Value[] x = elems(a), y = elems(b);
+        final Value[] r = new Value[x.length];
+        for (int i = 0; i < x.length; i++) {
+            r[i] = nat(big(x[i]).xor(big(y[i])));
+        }
+        return new TupleValue(r);
+    }
+
+    @TLAPlusOperator(identifier = "AndV", module = "BigNat", warn = false)
+    public static Value andv(final Value a, final Value b) {
+        final Value[] x = elems(a), y = elems(b);
+        final Value[] r = new Value[x.length];
+        for (int i = 0; i < x.length; i++) {
+            r[i] = nat(big(x[i]).and(big(y[i])));
+        }
+        return new TupleValue(r);
+    }
+
+    @TLAPlusOperator(identifier = "NotV", module = "BigNat", warn = false)
+    public static Value notv(final Value a, final Value w) {
+        final Value[] x = elems(a);
+        final BigInteger mask = BigInteger.ONE.shiftLeft(small(w)).subtract(BigInteger.ONE);
+        final Value[] r = new Value[x.length];
+        for (int i = 0; i < x.length; i++) {
+            r[i] = nat(mask.subtract(big(x[i]).and(mask)));
+        }
+        return new TupleValue(r);
+    }
+
+    @TLAPlusOperator(identifier = "RotLV", module = "BigNat", warn = false)
+    public static Value rotlv(final Value a, final Value ks, final Value w) {
+        final Value[] x = elems(a), k = elems(ks);
+        final int ww = small(w);
+        final BigInteger mask = BigInteger.ONE.shiftLeft(ww).subtract(BigInteger.ONE);
+        final Value[] r = new Value[x.length];
+        for (int i = 0; i < x.length; i++) {
+            final int kk = ((small(k[i]) % ww) + ww) % ww;
+            final BigInteger v = big(x[i]).and(mask);
+            r[i] = nat(v.shiftLeft(kk).or(v.shiftRight(ww - kk)).and(mask));
+        }
+        return new TupleValue(r);
+    }
+
     @TLAPlusOperator(identifier = "Norm", module = "BigNat", warn = false)
     public static Value norm(final Value a) {
         return nat(big(a));
